@@ -34,6 +34,14 @@ class A:
     pass
 
 
+# an instance of the base class that was given its declaration *before* any
+# subclass was declared with an *only* form (class D below)
+EARLY_A = A()
+directlyProvides(EARLY_A, I2)
+EARLY_A2 = A()
+directlyProvides(EARLY_A2, I0, I2)    # I0 is redundant: the class implements it
+
+
 class B(A):                      # inherited only
     pass
 
